@@ -21,19 +21,21 @@ def main():
         if hasattr(impl, name):
             runners[name[4]] = getattr(impl, name)
     cases = json.load(open(src))
-    out = []
     progress = dst + ".progress"
-    for i, c in enumerate(cases):
-        with open(progress, "w") as fh:
-            fh.write(str(i))
-        try:
-            out.append(runners[c['family']](c['case']))
-        except BaseException as e:  # noqa
-            if isinstance(e, (KeyboardInterrupt, SystemExit)):
-                raise
-            out.append({"error": "%s: %s\n%s" % (type(e).__name__, e, traceback.format_exc()[-1500:])})
-    with open(dst, "w") as fh:
-        json.dump(out, fh)
+    with open(dst, "w") as out:
+        for i, c in enumerate(cases):
+            with open(progress, "w") as fh:
+                fh.write(str(i))
+            try:
+                o = runners[c['family']](c['case'])
+            except BaseException as e:  # noqa
+                if isinstance(e, (KeyboardInterrupt, SystemExit)):
+                    raise
+                o = {"error": "%s: %s\n%s" % (type(e).__name__, e, traceback.format_exc()[-1500:])}
+            out.write(json.dumps(o) + "\n")
+            out.flush()
+    with open(progress, "w") as fh:
+        fh.write("done")
 
 
 if __name__ == "__main__":
